@@ -5,8 +5,12 @@ import hashlib, json, glob, os, signal, subprocess, time, errno
 import common
 from common import hexs
 
-TRANSLATORS = ['t_step', 't_interp']
-TRUSTED = ['tools/chaos_preload.c (LD_PRELOAD delay shim of the undriven lane)',
+TRANSLATORS = ['t_step', 't_interp', 't_lock']
+TRUSTED = ['tools/chaos_preload.c (LD_PRELOAD shim: random delays for the undriven lane, call trace with file sizes for the call-order lane)',
+           'translator t_lock.py (regexes on step.c / robsd-step.c: the order of open/flock/read/serialise/fopen/fwrite/fclose/unlock/close and of the sync points; '
+           'helper functions of step.c are expanded in place, error exits left out)',
+           'ASSUMED about libc (observed by the call-order lane only): fwrite writes the whole 4096-byte blocks of a large buffer itself and fclose the tail, '
+           'so a rewrite passes through at most one intermediate content',
            'the ROBSD_VERIF sync-point hook in step.c (verif.h), this scheduler (FIFO + SIGSTOP/SIGCONT, /proc/<pid>/wchan to tell "blocked in flock")',
            'ASSUMED, not verified: flock(2) grants LOCK_EX to one holder at a time and releases it at LOCK_UN/exit; each syscall between two sync points is atomic; '
            'fopen("w") truncates at open; a process\'s output and exit status depend only on the content it read',
@@ -334,9 +338,10 @@ def undriven_one(impl, drv, so, base, case, chaos_seed):
             procs.append(subprocess.Popen(args, env=env, stdin=subprocess.DEVNULL, stdout=subprocess.PIPE, stderr=subprocess.PIPE))
         else:
             args = [os.path.join(impl, 'robsd-step'), '-R', '-f', path, '-' + o['how'], o['arg']]
-            p = subprocess.Popen(args, env=env, stdin=subprocess.PIPE, stdout=subprocess.PIPE, stderr=subprocess.PIPE)
-            p.stdin.write(o['template'].encode())
-            p.stdin.close()
+            # the template comes from a file: a reader that fails before it looks at its input must not break the pipe
+            tp = os.path.join(work, 'tmpl%d' % i)
+            open(tp, 'w').write(o['template'])
+            p = subprocess.Popen(args, env=env, stdin=open(tp, 'rb'), stdout=subprocess.PIPE, stderr=subprocess.PIPE)
             procs.append(p)
     reps = []
     for p in procs:
@@ -372,6 +377,72 @@ def undriven(ctx, impl, drv, res, rounds):
                                         'final': final.decode('latin1'), 'reports': reps})
 
 
+def big_file(rows):
+    body = ''.join('%d,step-number-%d-with-a-long-name,0,%d,0,%03d-step-number-%d.log,root,17000000%02d,0\n' % (i, i, i, i, i, i % 100) for i in range(1, rows + 1))
+    return ('step,name,exit,duration,delta,log,user,time,skip\n' + body).encode()
+
+
+def callorder(ctx, impl, drv, res, rounds):
+    """One robsd-step process at a time under the tracing shim: the calls on the step file and its lock, in the order the
+    process made them, with the size of the file at the points where the model says what it holds - empty after the
+    truncation, the blocks fwrite writes by itself when fclose is entered (the intermediate content of the model),
+    complete when fclose returns and still complete at the unlock."""
+    import shutil, tempfile
+    so = build_chaos(ctx)
+    base = ctx.mkscratch('c02o')
+    rng = ctx.rng
+    for k in range(rounds):
+        rows = rng.choice([0, 1, 3, 30, 55, 56, 57, 58, 60, 100, 110, 112, 113, 114, 140, 170])
+        init = big_file(rows) if rows else b''
+        kind = rng.random()
+        if kind < 0.6:
+            pad = rng.choice([0, 0, 1, 2, 3, 7, 31, 64, 100]) if rows else 0
+            tgt = max(1, rows // 2)
+            op = {'kind': 'w', 'id': str(tgt), 'kvs': ['name=n', 'exit=0', 'duration=1', 'user=root', 'time=1', 'log=' + 'x' * pad]}
+            if rows >= 55 and rng.random() < 0.5:
+                # aim at a new content that ends exactly on a stdio block boundary
+                op['aim'] = ((len(init) // 4096) + rng.choice([0, 1])) * 4096
+        elif kind < 0.75:
+            op = {'kind': 'w', 'id': '1', 'kvs': ['exit=x']}                       # rejected: no rewrite
+        else:
+            op = {'kind': 'r', 'how': 'i', 'arg': '1', 'template': '${name}\n'}
+        if op.get('aim'):
+            probe = common.run_driver(drv, [' '.join(['plan', init.hex() or '-'] + op_toks(op))])[0].split(' ')
+            if probe[0] != '-':
+                need = op['aim'] - int(probe[0]) + len(op['kvs'][-1]) - 4
+                if 0 < need < 3000:
+                    op['kvs'][-1] = 'log=' + 'x' * need
+        work = tempfile.mkdtemp(dir=base)
+        path = os.path.join(work, 'step.csv')
+        tr = os.path.join(work, 'trace')
+        open(path, 'wb').write(init)
+        env = dict(os.environ, LD_PRELOAD=so, CHAOS_MAX_US='0', CHAOS_TRACE=tr)
+        env.pop('ROBSD_VERIF_SYNC', None)
+        if op['kind'] == 'w':
+            args = [os.path.join(impl, 'robsd-step'), '-W', '-f', path, '-i', op['id'], '--'] + op['kvs']
+            subprocess.run(args, env=env, stdin=subprocess.DEVNULL, stdout=subprocess.PIPE, stderr=subprocess.PIPE, timeout=20)
+        else:
+            args = [os.path.join(impl, 'robsd-step'), '-R', '-f', path, '-' + op['how'], op['arg']]
+            subprocess.run(args, env=env, input=op['template'].encode(), stdout=subprocess.PIPE, stderr=subprocess.PIPE, timeout=20)
+        seen = open(tr).read().split('\n')[:-1] if os.path.exists(tr) else []
+        shutil.rmtree(work, ignore_errors=True)
+        n, d, ms = (common.run_driver(drv, [' '.join(['plan', init.hex() or '-'] + op_toks(op))])[0].split(' ') + [''])[:3]
+        if n == '-':
+            want = ['flock EX %d' % len(init), 'flock UN %d' % len(init)]
+            res.count('call order: no rewrite')
+        else:
+            mids = [int(x) for x in ms.split(',') if x]
+            # when fclose is entered the file holds what fwrite wrote by itself: the model's intermediate content, or
+            # nothing (small file), or everything (the content ends on a block boundary)
+            pre = mids[-1] if mids else int(d)
+            want = ['flock EX %d' % len(init), 'fopen we 0', 'fclose %d %s' % (pre, n), 'flock UN %s' % n]
+            res.count('call order: rewrite ' + ('in one piece' if not mids and int(d) == 0 else 'ending on a block boundary' if not mids else 'in two pieces'))
+        res.evaluations += 1
+        if seen != want:
+            res.disagreements.append({'case': {'callorder': True, 'init_rows': rows, 'op': op}, 'why': 'calls on the step file differ from the order/contents of the model',
+                                      'model': want, 'impl': seen})
+
+
 def load_corpus():
     return [json.load(open(p)) for p in sorted(glob.glob(os.path.join(common.VERIF, 'corpus', 'C02', '*.json')))]
 
@@ -380,7 +451,9 @@ def run(ctx, n=None):
     res = common.Result()
     res.rule = ('2-4 real robsd-step -W/-R processes (new ids, same ids, partial updates, rejected writes, reads by position) on one file, '
                 'driven through the 7 sync points of step.c along adversarial and random schedules; the observed event trace is replayed on the model '
-                '(file content compared after every event, reports at the end) and the final file/reports checked against all serial orders; '
+                '(file content compared after every event, reports at the end) and the final file/reports checked against all serial orders; single processes under a '
+                'tracing shim (order of the calls on the step file and its lock; file size after the truncation, at the entry of fclose, after it and at the unlock, for files '
+                'below, across and exactly on stdio block boundaries); '
                 'non-trivial = at least one writer and at least two processes produced events; distinct by ops+event trace')
     n = n or ctx.budget(250, 4000)
     cases = load_corpus() + [gen_case(ctx.rng) for _ in range(n)]
@@ -388,6 +461,7 @@ def run(ctx, n=None):
     evaluate(ctx, cases, res)
     res.traces_validated = res.evaluations
     undriven(ctx, ctx.build_impl(), ctx.build_driver('lk'), res, ctx.budget(150, 3000) if n >= 250 else max(20, n // 2))
+    callorder(ctx, ctx.build_impl(), ctx.build_driver('lk'), res, ctx.budget(120, 1500) if n >= 250 else 30)
     return res
 
 
@@ -398,6 +472,10 @@ def extended_search(ctx, res, proof):
 def replay(ctx, rep):
     case = rep.get('case') or (rep.get('first_disagreements') or [{}])[0].get('case')
     res = common.Result()
+    if case.get('callorder'):
+        callorder(ctx, ctx.build_impl(), ctx.build_driver('lk'), res, 60)
+        print('disagreements:', res.disagreements[:3])
+        return 1 if res.disagreements else 0
     if case.get('undriven'):
         # a race without sync points: re-execute the same processes under the delay shim, the recorded delay seed
         # first and then further seeds; the replay fails as soon as one execution equals no serial order
